@@ -32,6 +32,7 @@ def respFor (s : Server) (req : Dgram) : Dgram :=
   | .pb => { type := .ack, code := 69, mid := req.mid, token := req.token }
   | .ac | .tr | .dc => { type := .con, code := 69, mid := (s.txMid + 1) % 65536, token := req.token }
   | .dn => { type := .non, code := 69, mid := (s.txMid + 1) % 65536, token := req.token }
+  | .da => { type := .ack, code := 69, mid := (s.txMid + 1) % 65536, token := req.token }
 
 /-- the server's side of one exchange: copies of the request `req` arrive (any number, any time), ACK / RST datagrams
     arrive (any message id), time passes, application timers run — in any order -/
@@ -211,6 +212,13 @@ theorem Server.app_fire_dn (dedup : Bool) (D T txMid : Nat) (answered : List Byt
             [Out.tx { type := .non, code := 69, mid := (txMid + 1) % 65536, token := tok }]) := by
   simp [Server.appTimer, hd, Layer.send, Idle]
 
+theorem Server.app_fire_da (dedup : Bool) (D T txMid : Nat) (answered : List Bytes) (now due : Nat) (tok : Bytes)
+    (hd : due ≤ now) :
+    (Server.mk .da dedup D T txMid Idle [] [{ token := tok, due := due }] answered).appTimer now =
+      some (Server.mk .da dedup D T ((txMid + 1) % 65536) Idle [] [] (answered ++ [tok]),
+            [Out.tx { type := .ack, code := 69, mid := (txMid + 1) % 65536, token := tok }]) := by
+  simp [Server.appTimer, hd, Layer.send, Idle]
+
 theorem Server.app_fire_tr (dedup : Bool) (D T txMid : Nat) (answered : List Bytes) (now due m : Nat) (tok : Bytes)
     (hd : due ≤ now) :
     (Server.mk .tr dedup D T txMid Idle [{ token := tok, mid := m, reqType := .con, due := none }]
@@ -255,13 +263,13 @@ theorem Server.rx_req_fresh_tr (dedup : Bool) (D T txMid : Nat) (answered : List
   simp [Server.rx, hc, hk, Server.handleRequest, Server.findAsync, Server.handler, hnew', ackFor, emptyAck]
 
 theorem Server.rx_req_fresh_dcdn (pers : Pers) (dedup : Bool) (D T txMid : Nat) (answered : List Bytes) (now : Nat)
-    (req : Dgram) (hp : pers = .dc ∨ pers = .dn) (hr : SReq req) (hnew : answered.contains req.token = false) :
+    (req : Dgram) (hp : pers = .dc ∨ pers = .dn ∨ pers = .da) (hr : SReq req) (hnew : answered.contains req.token = false) :
     (Server.mk pers dedup D T txMid Idle [] [] answered).rx now req =
       (Server.mk pers dedup D T txMid Idle [] [{ token := req.token, due := now + D }] answered,
        [Out.callRequest req.mid req.token, Out.tx (emptyAck req.mid)]) := by
   obtain ⟨hc, hk⟩ := hr
   have hnew' : req.token ∉ answered := by simpa using hnew
-  rcases hp with hp | hp <;> subst hp <;>
+  rcases hp with hp | hp | hp <;> subst hp <;>
     simp [Server.rx, hc, hk, Server.handleRequest, Server.findAsync, Server.handler, hnew', ackFor, emptyAck]
 
 /-- a copy of the request while its async is registered: only the empty ACK again -/
@@ -276,13 +284,13 @@ theorem Server.rx_req_async (s : Server) (now : Nat) (req : Dgram) (a : Async) (
 
 /-- a copy of the request while the delayed-response timer runs -/
 theorem Server.rx_req_timer (s : Server) (now : Nat) (req : Dgram) (p : Pend) (hr : SReq req)
-    (hp : s.pers = .dc ∨ s.pers = .dn) (ha : s.asyncs = []) (hpe : s.pend = [p]) (hpt : p.token = req.token) :
+    (hp : s.pers = .dc ∨ s.pers = .dn ∨ s.pers = .da) (ha : s.asyncs = []) (hpe : s.pend = [p]) (hpt : p.token = req.token) :
     s.rx now req = (s, [Out.callRequest req.mid req.token, Out.tx (emptyAck req.mid)]) := by
   obtain ⟨hc, hk⟩ := hr
   cases s with
   | mk pers dedup D T txMid L asyncs pend answered =>
     simp only at ha hpe hp; subst ha hpe
-    rcases hp with hp | hp <;> subst hp <;>
+    rcases hp with hp | hp | hp <;> subst hp <;>
       simp [Server.rx, hc, hk, Server.handleRequest, Server.findAsync, Server.handler, hpt, ackFor, emptyAck]
 
 /-- a copy of the request after the response: application-level de-duplication -/
@@ -315,8 +323,8 @@ def SInv (s0 : Server) (req : Dgram) (s : Server) : Prop :=
       txMid := (s0.txMid + 1) % 65536,
       asyncs := [{ token := req.token, mid := (s0.txMid + 1) % 65536, reqType := .con, due := none }],
       pend := [{ token := req.token, due := t }] }) ∨
-  -- `dc` / `dn`: the application's delayed-response timer runs
-  ((s0.pers = .dc ∨ s0.pers = .dn) ∧ ∃ t, s = { s0 with pend := [{ token := req.token, due := t }] }) ∨
+  -- `dc` / `dn` / `da`: the application's delayed-response timer runs
+  ((s0.pers = .dc ∨ s0.pers = .dn ∨ s0.pers = .da) ∧ ∃ t, s = { s0 with pend := [{ token := req.token, due := t }] }) ∨
   -- the response has been produced; a Confirmable one may still wait for its ACK
   (s0.pers ≠ .pb ∧ ∃ L, (L = Idle ∨ ∃ n, L = Wt n ∧ n.d = respFor s0 req ∧ (respFor s0 req).type = .con) ∧
     s = { s0 with txMid := (s0.txMid + 1) % 65536, answered := s0.answered ++ [req.token], L := L })
@@ -383,8 +391,11 @@ theorem SInv_step {s0 : Server} {req : Dgram} (hr : SReq req) (hq : SQuiet s0 re
           rw [Server.rx_req_fresh_dcdn _ _ _ _ _ _ _ _ (Or.inl rfl) hr hnew]
           exact ⟨Or.inr (Or.inr (Or.inr (Or.inl ⟨Or.inl rfl, _, rfl⟩))), by simp⟩
         | dn =>
-          rw [Server.rx_req_fresh_dcdn _ _ _ _ _ _ _ _ (Or.inr rfl) hr hnew]
-          exact ⟨Or.inr (Or.inr (Or.inr (Or.inl ⟨Or.inr rfl, _, rfl⟩))), by simp⟩
+          rw [Server.rx_req_fresh_dcdn _ _ _ _ _ _ _ _ (Or.inr (Or.inl rfl)) hr hnew]
+          exact ⟨Or.inr (Or.inr (Or.inr (Or.inl ⟨Or.inr (Or.inl rfl), _, rfl⟩))), by simp⟩
+        | da =>
+          rw [Server.rx_req_fresh_dcdn _ _ _ _ _ _ _ _ (Or.inr (Or.inr rfl)) hr hnew]
+          exact ⟨Or.inr (Or.inr (Or.inr (Or.inl ⟨Or.inr (Or.inr rfl), _, rfl⟩))), by simp⟩
       | reply now d h =>
         simp only [Server.step]
         obtain ⟨h1, h2⟩ := Server.rx_reply_Idle ⟨pers, dedup, D, T, txMid, Idle, [], [], answered⟩ now d rfl h
@@ -485,11 +496,14 @@ theorem SInv_step {s0 : Server} {req : Dgram} (hr : SReq req) (hq : SQuiet s0 re
       | app now =>
         simp only [Server.step]
         by_cases ht : t ≤ now
-        · rcases hp with hp | hp <;> subst hp
+        · rcases hp with hp | hp | hp <;> subst hp
           · rw [Server.app_fire_dc _ _ _ _ _ _ _ _ ht, Option.getD_some]
             refine ⟨Or.inr (Or.inr (Or.inr (Or.inr ⟨by simp, _, Or.inr ⟨_, rfl, ?_, ?_⟩, rfl⟩))), ?_⟩ <;>
               simp [rspNode, respFor]
           · rw [Server.app_fire_dn _ _ _ _ _ _ _ _ ht, Option.getD_some]
+            refine ⟨Or.inr (Or.inr (Or.inr (Or.inr ⟨by simp, _, Or.inl rfl, rfl⟩))), ?_⟩
+            simp [respFor]
+          · rw [Server.app_fire_da _ _ _ _ _ _ _ _ ht, Option.getD_some]
             refine ⟨Or.inr (Or.inr (Or.inr (Or.inr ⟨by simp, _, Or.inl rfl, rfl⟩))), ?_⟩
             simp [respFor]
         · rw [Server.app_wait _ now _ rfl (by simp only; omega)]
@@ -548,7 +562,7 @@ theorem SInv_pb_const {s0 : Server} {req : Dgram} (hp : s0.pers = .pb) {s : Serv
   · exact hi
   · rw [hp] at h; cases h
   · rw [hp] at h; cases h
-  · rw [hp] at h; rcases h with h | h <;> cases h
+  · rw [hp] at h; rcases h with h | h | h <;> cases h
   · exact absurd hp h
 
 /-- the piggybacking server never changes state and transmits only when a copy of the request arrives -/
